@@ -105,6 +105,7 @@ def scenario(rnd, with_cache):
         # repair
         q3 = signac.Project(p.path)
         recoverable = True
+        targets = []
         for jid in bad:
             if with_cache and jid in known:
                 continue
@@ -116,6 +117,9 @@ def scenario(rnd, with_cache):
                     recoverable = False
                 if tgt not in known:
                     recoverable = False
+                if tgt in targets:
+                    recoverable = False      # two damaged directories hold the state point of one and the same job: only one can be restored
+                targets.append(tgt)
             except Exception:
                 recoverable = False
         try:
